@@ -61,6 +61,11 @@ func runC01(c *eng.Ctx) {
 	// ---- R14.6 the segment-exists error reaches the roll's identity test unwrapped
 	n := ruleSentinelIdentity(c, "R14.6", []string{cl + "(*commitLog).checkAndPerformSplit"}, "a roll that finds the next segment file already present fails the append instead of being skipped")
 	c.Check(n >= 1, "roll tells an existing segment apart", "", "identity comparison with ErrSegmentExists found", "checkAndPerformSplit no longer recognises ErrSegmentExists")
+	// ---- R03.10 (shared) a Read fills the buffer or fails
+	c.Rule("R03.10", "K1")
+	ruleReadFillsOrFails(c)
+	c.Floor(2)
+
 }
 
 func ruleOffsetIdentity(c *eng.Ctx) {
